@@ -31,6 +31,8 @@ CLASSES = {
     "same-bank-gap1": (dict(V, cmds=[["R", 0], ["W", 1]]), adv([["R", 1]], gap=1)),
     "same-bank-gap2-writes": (dict(V, cmds=[["R", 0], ["W", 1]]), adv([["W", 0]], gap=2)),
     "same-bank-freeidle": (dict(V, cmds=[["R", 0], ["W", 1]]), adv([["R", 0], ["W", 1]], idle=True)),
+    "two-bank-adversary": (dict(V, cmds=[["R", 1], ["W", 3]]), adv([["R", 0], ["W", 2]])),         # the adversary changes bank with commands still queued in the other one
+    "two-bank-adversary-reads": (dict(V, cmds=[["R", 1]]), adv([["R", 0], ["R", 2]], idle=True)),
     "any-bank-anything": (V, adv([["R", 0], ["W", 1], ["W", 2], ["R", 3]], idle=True)),
 }
 LIVE = [("port 0 command offered -> accepted", core.EV_VPEND, core.EV_VACC),
@@ -49,6 +51,7 @@ def configs(tier):
         for cls in ("other-bank-reads", "other-bank-writes", "other-bank-altrows-writes", "other-bank-mixed", "same-bank-gap3", "same-bank-gap4-writes",
                     "same-bank-gap0", "same-bank-gap1", "same-bank-gap2-writes"):
             add("sdr-norefresh", cls, refresh=False, **SDR)
+        add("sdr-norefresh", "two-bank-adversary", refresh=False, **SDR)
         add("sdr-noap-norefresh", "other-bank-altrows-writes", refresh=False, ap=False, **SDR)
         add("sdr-refresh", "other-bank-writes", refresh=True, **SDR)
         add("sdr-refresh", "same-bank-gap3", refresh=True, **SDR)
